@@ -81,18 +81,9 @@ namespace ip {
 
 	void tcp::acceptor::close()
 	{
-		if (m_accept_handler)
-		{
-			post(m_io_service, bind_handler(std::exchange(m_accept_handler, nullptr)
-				, boost::system::error_code(error::operation_aborted)));
-		}
-		if (m_accept_handler2)
-		{
-			post(m_io_service, [ios = &m_io_service, h = std::exchange(m_accept_handler2, nullptr)] () mutable {
-				h(boost::system::error_code(error::operation_aborted)
-					, ip::tcp::socket(*ios));
-				});
-		}
+		boost::system::error_code ec;
+		close(ec);
+		if (ec) throw boost::system::system_error(ec);
 	}
 
 	void tcp::acceptor::cancel(boost::system::error_code& ec)
